@@ -2,6 +2,7 @@ package rules
 
 import (
 	"fmt"
+	"go/types"
 	"strings"
 
 	"golang.org/x/tools/go/ssa"
@@ -12,7 +13,7 @@ import (
 func init() { Registry["C08"] = checkC08 }
 
 func checkC08(p *core.Prog, r *core.Report) {
-	r.Explanation = "Decides structural necessary conditions of clean-prefix recovery: (R1) the log readers (AofFile.ReadLock, ReadHeader, ReadLockData, ReadTail) never report success after a detected failure: no return of an error value that the path facts prove nil while another error was found non-nil, and ReadLock's success returns carry the full-record equality n == recordLen+2; (R2) ReadHeader succeeds only after n == 12, the magic and the version tests; opening for append truncates a file shorter than its 12-byte header before writing a new header; (R3) in LoadAofFile a failed value read returns the error without invoking the record callback for that record; the record's value blob is read before any skip of the record (so the sequential value file stays aligned); (R4) AofFile.Flush writes the record file before the value file on every path; (R5) value bytes are buffered (dwindex grows) only on paths where records are buffered too (windex > 0), because Close and the rotation path flush only when records are buffered. (R6) the readers never hand out the error of io.ReadFull / io.ReadAtLeast unmapped (a partly present item must read as io.EOF, the only value the loaders treat as end of log); (R7) an oversized value is written directly to the value file only with the record buffer empty. (R8) the sequential readers return a constructed (non-EOF) error only about an item they have read completely - a partly present header or record must read as io.EOF; (R9) opening the newest append file for append cuts it back to a whole number of records before anything is appended. (R10) some function of the log truncates the value file - none does: known finding. NOT decided: behaviour at each of the 64 residues, where exactly the two files are cut after a crash between the two writes, fsync timing - these need crash images."
+	r.Explanation = "Decides structural necessary conditions of clean-prefix recovery: (R1) the log readers (AofFile.ReadLock, ReadHeader, ReadLockData, ReadTail) never report success after a detected failure: no return of an error value that the path facts prove nil while another error was found non-nil, and ReadLock's success returns carry the full-record equality n == recordLen+2; (R2) ReadHeader succeeds only after n == 12, the magic and the version tests; opening for append truncates a file shorter than its 12-byte header before writing a new header; (R3) in LoadAofFile a failed value read returns the error without invoking the record callback for that record; the record's value blob is read before any skip of the record (so the sequential value file stays aligned); (R4) AofFile.Flush writes the record file before the value file on every path; (R5) value bytes are buffered (dwindex grows) only on paths where records are buffered too (windex > 0), because Close and the rotation path flush only when records are buffered. (R6) the readers never hand out the error of io.ReadFull / io.ReadAtLeast unmapped (a partly present item must read as io.EOF, the only value the loaders treat as end of log); (R7) an oversized value is written directly to the value file only with the record buffer empty. (R8) the sequential readers return a constructed (non-EOF) error only about an item they have read completely - a partly present header or record must read as io.EOF; (R9) opening the newest append file for append cuts it back to a whole number of records before anything is appended. (R10) some function of the log truncates the value file - none does: known finding. (R11) a Truncate in AofFile.Open is made on files opened with O_APPEND, or a Seek follows (Truncate does not move the offset). NOT decided: behaviour at each of the 64 residues, where exactly the two files are cut after a crash between the two writes, fsync timing - these need crash images."
 	r.Assumptions = []string{"Go type checker and go/ssa are correct for /repo", "bufio.Reader.Read returns (n>0, nil) or (0, err)"}
 	c08R1(p, r)
 	c08R2(p, r)
@@ -24,6 +25,7 @@ func checkC08(p *core.Prog, r *core.Report) {
 	c08R8(p, r)
 	c08R9(p, r)
 	c08R10(p, r)
+	c08R11(p, r)
 }
 
 func c08R1(p *core.Prog, r *core.Report) {
@@ -648,5 +650,98 @@ func c08R10(p *core.Prog, r *core.Report) {
 		r.Hold(rule, key, where, "the value file is truncated here")
 	} else {
 		r.Violate(rule, key, pos, "nothing in the server ever truncates the value file: after a crash that left the last record's value cut short, the restart appends new records behind that record and new values behind the torn bytes, and every later restart stops at the record with the torn value - what was persisted after the first restart is never recovered", nil)
+	}
+}
+
+// c08R11: Open(append) cuts a torn tail off with Truncate (R9). Truncate does
+// not move the file offset, so "whatever is persisted after that restart is in
+// turn recovered" needs the later writes to land at the new end: the file is
+// opened with O_APPEND (every write goes to the current end), or a Seek to the
+// end follows the Truncate. Otherwise the first record after a torn-tail
+// restart is written at the old end, behind a hole of zeros, and the next
+// restart fails on it.
+func c08R11(p *core.Prog, r *core.Report) {
+	const rule = "C08/R11"
+	r.Rule(rule, "AofFile.Open: a Truncate of a log file is made on a file opened with O_APPEND, or is followed by a Seek before Open returns", 1)
+	fn := mustFunc(p, r, "server.(*AofFile).Open")
+	if fn == nil {
+		return
+	}
+	oAppend := ""
+	if pk := p.Pkg("server"); pk != nil {
+		for _, imp := range pk.Types.Imports() {
+			if imp.Path() == "os" {
+				if c, ok := imp.Scope().Lookup("O_APPEND").(*types.Const); ok {
+					oAppend = c.Val().ExactString()
+				}
+			}
+		}
+	}
+	if oAppend == "" {
+		r.Fail("C08/R11: os.O_APPEND not found")
+		return
+	}
+	n := 0
+	bad := map[string]bool{}
+	ex := core.NewExplorer(p, core.Hooks{
+		ResolvePhi: func(phi *ssa.Phi) bool {
+			b, ok := phi.Type().Underlying().(*types.Basic)
+			return ok && b.Info()&types.IsInteger != 0
+		},
+		Track: func(x *core.X, a core.Atom) bool { return strings.Contains(a.String(), ".mode") },
+		Instr: func(x *core.X) {
+			if !x.Top() {
+				return
+			}
+			c := core.StaticCallee(x.Ins)
+			if c == nil || c.Pkg == nil || c.Pkg.Pkg.Path() != "os" {
+				return
+			}
+			args := core.CallArgs(x.Ins)
+			switch c.Name() {
+			case "OpenFile":
+				if len(args) >= 2 {
+					flag := core.Plain(x.Canon(args[1]).S)
+					if strings.Contains(flag, "| "+oAppend) || flag == oAppend {
+						x.Set("append:"+core.Plain(x.Canon(args[0]).S), "1")
+						x.Set("appendany", x.Get("appendany")+"1")
+					}
+					x.Set("opens", x.Get("opens")+"1")
+				}
+			case "Truncate":
+				// the mode is read twice (a local copy, then the field again); nothing in
+				// Open writes it, so a path that took the copy for "not append" and the
+				// field for "append" does not exist
+				if !p.MayWrite(fn)[fk("server.AofFile", "mode")] {
+					for h := range x.St.Hist {
+						if hp := core.Plain(h); strings.Contains(hp, ".mode") && strings.HasSuffix(hp, " != 1") {
+							return
+						}
+					}
+				}
+				n++
+				// every file this function opened on the path was opened for appending?
+				if len(x.Get("appendany")) < len(x.Get("opens")) || x.Get("opens") == "" {
+					x.Set("pending", x.Pos())
+				}
+			case "Seek":
+				x.Set("pending", "")
+			}
+		},
+		Exit: func(x *core.X, rets []core.Expr) {
+			if pos := x.Get("pending"); pos != "" && !bad[pos] {
+				bad[pos] = true
+				r.Violate(rule, "server.(*AofFile).Open: Truncate at the torn tail", pos, "the file is cut with Truncate but was not opened with O_APPEND and no Seek follows: Truncate leaves the offset at the old end, so the first record written after a torn-tail restart lands behind a hole of zero bytes and the next restart fails (Lock Len error / not an AOF file)", x.St.Trace)
+			}
+		},
+	})
+	ex.Run(fn, nil)
+	switch {
+	case ex.Imprecise != "":
+		r.Fail("C08/R11: %s", ex.Imprecise)
+	case n == 0:
+		r.Fail("C08/R11: Open has no Truncate")
+	case len(bad) == 0:
+		r.Hold(rule, "server.(*AofFile).Open: Truncate at the torn tail", p.Pos(fn.Pos()), "files opened with O_APPEND (or a Seek follows)")
 	}
 }
